@@ -425,6 +425,17 @@ class Models:
 
 		return model
 
+	def key_eq(self, a, b):
+		"""content equality of two keys (spans of the input, quotes included)"""
+		if a == b:
+			return True
+		if a[2] - a[1] != b[2] - b[1]:
+			return False
+		xs, ys = self.chars[a[1] + 1 : a[2] - 1], self.chars[b[1] + 1 : b[2] - 1]
+		if all(isinstance(c, int) for c in xs + ys):
+			return xs == ys
+		raise MirError("comparison of keys with symbolic characters (only concrete or empty keys can be compared)")
+
 	# ---- std / locspan
 	def table(self):
 		one = lambda f: (lambda ip, st, args: [(st, f(ip, st, args))])
@@ -452,9 +463,30 @@ class Models:
 			v = ip.read_loc(st, loc)
 			if not (isinstance(v, tuple) and v[0] == "obj"):
 				raise MirError("Object::push on %r" % (v,))
-			fresh = all(k != args[1] for k, _ in v[1])
 			ip.write_loc(st, loc, ("obj", v[1] + ((args[1], args[2]),)))
-			return fresh
+			return True  # the fresh-key flag (ignored by the driver; key comparison is C06's subject)
+
+		def obj_insert(ip, st, args):
+			# Object::insert whose result is dropped unconsumed (drops are not interpreted): the
+			# first entry with the key is replaced, every other entry with it is removed
+			loc = (args[0][0], args[0][1], args[0][2])
+			v = ip.read_loc(st, loc)
+			if not (isinstance(v, tuple) and v[0] == "obj"):
+				raise MirError("Object::insert on %r" % (v,))
+			if all(not self.key_eq(k, args[1]) for k, _ in v[1]):
+				ip.write_loc(st, loc, ("obj", v[1] + ((args[1], args[2]),)))
+				return NONE
+			out = []
+			done = False
+			for k, x in v[1]:
+				if self.key_eq(k, args[1]):
+					if not done:
+						out.append((args[1], args[2]))
+						done = True
+				else:
+					out.append((k, x))
+			ip.write_loc(st, loc, ("obj", tuple(out)))
+			return some(Agg("RemovedByInsertion", None, ()))
 
 		def opt_take(ip, st, args):
 			loc = (args[0][0], args[0][1], args[0][2])
@@ -498,6 +530,7 @@ class Models:
 			"Option::take": one(opt_take),
 			"Object::new": one(lambda ip, st, a: OBJ0),
 			"Object::push": one(obj_push),
+			"Object::insert": one(obj_insert),
 			"<Result as Try>::branch": one(branch),
 			"<Result as FromResidual>::from_residual": one(from_residual),
 			"Meta::map": one(meta_map),
